@@ -16,7 +16,12 @@ RULE = (
     "Thorough adds Hypothesis-drawn trees over 7 leaves. Oracle: the returned "
     "pm4py tree interpreted with the same three rules admits every given set "
     "(soundness, all trees) and exactly those sets (exactness, trees in which "
-    "no OR has a non-leaf child and no AND has two OR children). Distinct by "
+    "no OR has a non-leaf child and no AND has two OR children). For every "
+    "tree with <=4 leaves and every fifth larger one the answer must also be "
+    "independent of earlier inferences in the process (a counted variant in "
+    "between) and of the way the sets reached an Event (substitution of an "
+    "event type through the Event API, gate tree read before and after). "
+    "Distinct by "
     "the tree itself; non-trivial: >=3 leaves and >=2 operator kinds.")
 ASSUMPTIONS = [
     "outcome semantics of AND/OR/XOR as written in vlib of this file (30 "
@@ -199,8 +204,71 @@ def check_tree(t):
                 f"{sorted(sorted(m) for m in extra)[:3]}")
 
 
+def check_interleaved(t):
+    """The answer for one family must not depend on what was inferred before
+    in the same process, nor on how the sets reached an Event:
+    (1) infer the family, infer a counted variant of it (one set with a
+    repeated event - branch counts), infer the family again: first and third
+    answers admit the same sets;
+    (2) through the Event API, as loop detection uses it: record the family,
+    read the gate tree, substitute one event type by a new one (add the
+    renamed sets, withdraw the sets with the old type - the number of sets
+    stays the same), read again: the answer equals a fresh inference of the
+    renamed family."""
+    from tel2puml.events import EventSet, Event
+    from tel2puml.logic_detection import calculate_logic_gates
+    fam = outcomes(t)
+    if len(fam) < 2:
+        return
+
+    def infer(sets):
+        return outcomes_inferred(from_pm4py(calculate_logic_gates(
+            {EventSet(sorted(o)) for o in sets})))
+    try:
+        first = infer(fam)
+        big = max(fam, key=lambda o: (len(o), sorted(o)))
+        x = sorted(big)[0]
+        counted = {EventSet(sorted(o) + ([x] if o == big else []))
+                   for o in fam}
+        calculate_logic_gates(counted)
+        third = infer(fam)
+    except Violation:
+        raise
+    except Exception as e:
+        raise Violation(f"interleaved inference raised {type(e).__name__}: "
+                        f"{e} for {show(t)}")
+    if first != third:
+        raise Violation(
+            f"inference depends on earlier calls: {show(t)} admits "
+            f"{sorted(sorted(o) for o in first)[:4]} when inferred first and "
+            f"{sorted(sorted(o) for o in third)[:4]} after a counted variant "
+            f"of the same family was inferred")
+    labels = sorted({l for o in fam for l in o})
+    old = labels[0]
+    renamed = {frozenset("L" if l == old else l for l in o) for o in fam}
+    ev = Event("X")
+    for o in sorted(fam, key=sorted):
+        ev.update_event_sets(sorted(o))
+    _ = ev.logic_gate_tree
+    for o in sorted(renamed, key=sorted):
+        if "L" in o:
+            ev.update_event_sets(sorted(o))
+    ev.remove_event_type_from_event_sets(old)
+    got = outcomes_inferred(from_pm4py(ev.logic_gate_tree))
+    want = infer(renamed)
+    if got != want:
+        raise Violation(
+            f"Event.logic_gate_tree is stale after substituting {old} by L "
+            f"in the recorded sets of {show(t)}: it admits "
+            f"{sorted(sorted(o) for o in got)[:4]}, a fresh inference of the "
+            f"current sets admits {sorted(sorted(o) for o in want)[:4]}")
+
+
 def replay(case):
     try:
+        if case.get("interleaved"):
+            check_interleaved(from_json(case["tree"]))
+            return None
         check_tree(from_json(case["tree"]))
     except Violation as v:
         return str(v)
@@ -267,6 +335,13 @@ def run_shard(ctx):
             except Violation as v:
                 ctx.violation(case, str(v))
                 return
+            if n <= 4 or idx % 5 == 0:
+                ctx.count("interleaved_and_event_api_checks")
+                try:
+                    check_interleaved(t)
+                except Violation as v:
+                    ctx.violation(dict(case, interleaved=True), str(v))
+                    return
     if ctx.tier == "thorough":
         def fn(case):
             t = from_json(case["tree"])
